@@ -271,6 +271,12 @@ pub enum Algo {
     SimplePaths,
     Graph6,
     DepthFirstSearch,
+    DfsDefaultReset,
+    DfsPostOrderDefaultReset,
+    TopoDefaultReset,
+    ToposortDefaultSpace,
+    HasPathDefaultSpace,
+    DfsMoveTo,
 }
 
 pub const ALL_ALGOS: &[Algo] = &[
@@ -311,6 +317,12 @@ pub const ALL_ALGOS: &[Algo] = &[
     Algo::SimplePaths,
     Algo::Graph6,
     Algo::DepthFirstSearch,
+    Algo::DfsDefaultReset,
+    Algo::DfsPostOrderDefaultReset,
+    Algo::TopoDefaultReset,
+    Algo::ToposortDefaultSpace,
+    Algo::HasPathDefaultSpace,
+    Algo::DfsMoveTo,
 ];
 
 impl Algo {
@@ -353,6 +365,12 @@ impl Algo {
             Algo::SimplePaths => "all_simple_paths",
             Algo::Graph6 => "graph6_string",
             Algo::DepthFirstSearch => "depth_first_search",
+            Algo::DfsDefaultReset => "dfs_default_then_reset",
+            Algo::DfsPostOrderDefaultReset => "dfs_post_order_default_then_reset",
+            Algo::TopoDefaultReset => "topo_default_then_reset",
+            Algo::ToposortDefaultSpace => "toposort_default_space",
+            Algo::HasPathDefaultSpace => "has_path_connecting_default_space",
+            Algo::DfsMoveTo => "dfs_move_to_second_start",
         }
     }
     /// Is the algorithm in its documented domain on this abstract graph?
@@ -361,7 +379,7 @@ impl Algo {
         match self {
             Algo::Dijkstra | Algo::DijkstraGoal | Algo::Astar | Algo::KShortest | Algo::FordFulkerson => !neg,
             Algo::BellmanFord | Algo::NegativeCycle | Algo::Spfa | Algo::FloydWarshall => true,
-            Algo::Topo | Algo::Toposort | Algo::ToposortSpace | Algo::IsCyclicDirected | Algo::Dominators | Algo::FeedbackArcSet | Algo::KosarajuScc | Algo::TarjanScc | Algo::TarjanSccReused => a.directed,
+            Algo::Topo | Algo::TopoDefaultReset | Algo::ToposortDefaultSpace | Algo::Toposort | Algo::ToposortSpace | Algo::IsCyclicDirected | Algo::Dominators | Algo::FeedbackArcSet | Algo::KosarajuScc | Algo::TarjanScc | Algo::TarjanSccReused => a.directed,
             Algo::IsCyclicUndirected | Algo::Bipartite | Algo::ArticulationPoints | Algo::MaximalCliques | Algo::Dsatur | Algo::MstPrim | Algo::Graph6 => !a.directed,
             Algo::SimplePaths => a.simple && a.directed,
             Algo::PageRank => a.directed,
@@ -411,13 +429,13 @@ fn judge_inner(algo: Algo, a: &Abs, p: &Params, r0: &Res, ri: &Res) -> Result<()
         }
     };
     match algo {
-        Algo::Dfs | Algo::Bfs | Algo::DfsPostOrder | Algo::DepthFirstSearch => eq("visited set"),
-        Algo::Topo | Algo::Toposort | Algo::ToposortSpace => match (r0, ri) {
+        Algo::Dfs | Algo::Bfs | Algo::DfsPostOrder | Algo::DepthFirstSearch | Algo::DfsDefaultReset | Algo::DfsPostOrderDefaultReset | Algo::DfsMoveTo => eq("visited set"),
+        Algo::Topo | Algo::TopoDefaultReset | Algo::Toposort | Algo::ToposortSpace | Algo::ToposortDefaultSpace => match (r0, ri) {
             (Res::Seq(o0), Res::Seq(oi)) => {
-                if is_topo_order(a, o0).is_err() && algo != Algo::Topo {
+                if is_topo_order(a, o0).is_err() && algo != Algo::Topo && algo != Algo::TopoDefaultReset {
                     return Ok(()); // reference itself invalid: not this property's business
                 }
-                if algo == Algo::Topo {
+                if algo == Algo::Topo || algo == Algo::TopoDefaultReset {
                     // Topo emits the nodes not on or downstream of a cycle: same set, valid order among them
                     let (s0, si): (BTreeSet<usize>, BTreeSet<usize>) = (o0.iter().copied().collect(), oi.iter().copied().collect());
                     if s0 != si {
@@ -469,7 +487,7 @@ fn judge_inner(algo: Algo, a: &Abs, p: &Params, r0: &Res, ri: &Res) -> Result<()
             }
             _ => eq("result"),
         },
-        Algo::IsCyclicDirected | Algo::IsCyclicUndirected | Algo::HasPath | Algo::HasPathSpace | Algo::ConnectedComponents | Algo::Bipartite => eq("verdict"),
+        Algo::IsCyclicDirected | Algo::IsCyclicUndirected | Algo::HasPath | Algo::HasPathSpace | Algo::HasPathDefaultSpace | Algo::ConnectedComponents | Algo::Bipartite => eq("verdict"),
         Algo::Dominators => eq("immediate dominator map"),
         Algo::Dijkstra | Algo::KShortest | Algo::FloydWarshall | Algo::DijkstraGoal => eq("distance map"),
         Algo::Astar => match (r0, ri) {
@@ -655,6 +673,53 @@ macro_rules! run_algo {
             Control::<()>::Continue
         });
         if finished != seen.len() { Res::Failed(format!("{} Discover but {} Finish events", seen.len(), finished)) } else { Res::Set(seen) }
+    }};
+    (@ DfsDefaultReset, $g:expr, $id:expr, $lb:expr, $a:expr, $p:expr) => {{
+        // a walker that was not created from this graph: reset() must size its map for it
+        let mut seen = BTreeSet::new();
+        let mut dfs = Dfs::default();
+        dfs.reset($g);
+        dfs.move_to($id($p.s));
+        let mut dup = false;
+        while let Some(x) = dfs.next($g) { if !seen.insert($lb(x)) { dup = true; } }
+        if dup { Res::Failed("a node was emitted twice".into()) } else { Res::Set(seen) }
+    }};
+    (@ DfsPostOrderDefaultReset, $g:expr, $id:expr, $lb:expr, $a:expr, $p:expr) => {{
+        let mut seen = BTreeSet::new();
+        let mut w = DfsPostOrder::default();
+        w.reset($g);
+        w.move_to($id($p.s));
+        let mut dup = false;
+        while let Some(x) = w.next($g) { if !seen.insert($lb(x)) { dup = true; } }
+        if dup { Res::Failed("a node was emitted twice".into()) } else { Res::Set(seen) }
+    }};
+    (@ DfsMoveTo, $g:expr, $id:expr, $lb:expr, $a:expr, $p:expr) => {{
+        // continue a finished walk from a second start: the union of both reachable sets
+        let mut seen = BTreeSet::new();
+        let mut dfs = Dfs::new($g, $id($p.s));
+        let mut dup = false;
+        while let Some(x) = dfs.next($g) { if !seen.insert($lb(x)) { dup = true; } }
+        dfs.move_to($id($p.t));
+        while let Some(x) = dfs.next($g) { if !seen.insert($lb(x)) { dup = true; } }
+        if dup { Res::Failed("a node was emitted twice".into()) } else { Res::Set(seen) }
+    }};
+    (@ TopoDefaultReset, $g:expr, $id:expr, $lb:expr, $a:expr, $p:expr) => {{
+        let mut t = Topo::default();
+        t.reset($g);
+        let mut order = Vec::new();
+        while let Some(x) = t.next($g) { order.push($lb(x)); if order.len() > 10_000 { break; } }
+        Res::Seq(order)
+    }};
+    (@ ToposortDefaultSpace, $g:expr, $id:expr, $lb:expr, $a:expr, $p:expr) => {{
+        let mut space = algo::DfsSpace::default();
+        match algo::toposort($g, Some(&mut space)) {
+            Ok(o) => Res::Seq(o.into_iter().map(|x| $lb(x)).collect()),
+            Err(c) => Res::Failed(format!("{}", $lb(c.node_id()))),
+        }
+    }};
+    (@ HasPathDefaultSpace, $g:expr, $id:expr, $lb:expr, $a:expr, $p:expr) => {{
+        let mut space = algo::DfsSpace::default();
+        Res::Bool(algo::has_path_connecting($g, $id($p.s), $id($p.t), Some(&mut space)))
     }};
     (@ Topo, $g:expr, $id:expr, $lb:expr, $a:expr, $p:expr) => {{
         let order: Vec<usize> = Topo::new($g).iter($g).map(|x| $lb(x)).collect();
@@ -1390,16 +1455,16 @@ macro_rules! impl_replica_set {
 }
 
 impl_replica_set!(Directed,
-    graph: [Dfs, Bfs, DfsPostOrder, DepthFirstSearch, Topo, Toposort, ToposortSpace, KosarajuScc, TarjanScc, TarjanSccReused, IsCyclicDirected, HasPath, HasPathSpace, ConnectedComponents, Dominators, Dijkstra, DijkstraGoal, Astar, KShortest, BellmanFord, NegativeCycle, Spfa, FloydWarshall, Mst, GreedyMatching, MaximumMatching, FordFulkerson, PageRank, FeedbackArcSet, SimplePaths],
-    stable: [Dfs, Bfs, DfsPostOrder, DepthFirstSearch, Topo, Toposort, ToposortSpace, KosarajuScc, TarjanScc, TarjanSccReused, IsCyclicDirected, HasPath, HasPathSpace, Dominators, Dijkstra, DijkstraGoal, Astar, KShortest, BellmanFord, NegativeCycle, Spfa, Mst, GreedyMatching, MaximumMatching, FordFulkerson, PageRank, FeedbackArcSet, SimplePaths],
-    matrix: [Dfs, Bfs, DfsPostOrder, DepthFirstSearch, Topo, Toposort, ToposortSpace, KosarajuScc, TarjanScc, TarjanSccReused, IsCyclicDirected, HasPath, HasPathSpace, Dominators, Dijkstra, DijkstraGoal, Astar, KShortest, BellmanFord, NegativeCycle, Spfa, Mst, GreedyMatching, MaximumMatching, PageRank, FeedbackArcSet, SimplePaths],
-    gmap: [Dfs, Bfs, DfsPostOrder, DepthFirstSearch, Topo, Toposort, ToposortSpace, KosarajuScc, TarjanScc, TarjanSccReused, IsCyclicDirected, HasPath, HasPathSpace, ConnectedComponents, Dominators, Dijkstra, DijkstraGoal, Astar, KShortest, BellmanFord, NegativeCycle, Spfa, FloydWarshall, Mst, GreedyMatching, MaximumMatching, PageRank, SimplePaths],
-    csr: [Dfs, Bfs, DfsPostOrder, DepthFirstSearch, TarjanScc, TarjanSccReused, IsCyclicDirected, HasPath, HasPathSpace, ConnectedComponents, Dominators, Dijkstra, DijkstraGoal, Astar, KShortest, BellmanFord, NegativeCycle, Spfa, FloydWarshall, Mst, GreedyMatching, MaximumMatching, PageRank],
-    list: [Dfs, Bfs, DfsPostOrder, DepthFirstSearch, TarjanScc, TarjanSccReused, IsCyclicDirected, HasPath, HasPathSpace, ConnectedComponents, Dominators, Dijkstra, DijkstraGoal, Astar, KShortest, BellmanFord, NegativeCycle, Spfa, FloydWarshall, Mst, GreedyMatching, MaximumMatching, PageRank]);
+    graph: [DfsDefaultReset, DfsPostOrderDefaultReset, DfsMoveTo, HasPathDefaultSpace, TopoDefaultReset, ToposortDefaultSpace, Dfs, Bfs, DfsPostOrder, DepthFirstSearch, Topo, Toposort, ToposortSpace, KosarajuScc, TarjanScc, TarjanSccReused, IsCyclicDirected, HasPath, HasPathSpace, ConnectedComponents, Dominators, Dijkstra, DijkstraGoal, Astar, KShortest, BellmanFord, NegativeCycle, Spfa, FloydWarshall, Mst, GreedyMatching, MaximumMatching, FordFulkerson, PageRank, FeedbackArcSet, SimplePaths],
+    stable: [DfsDefaultReset, DfsPostOrderDefaultReset, DfsMoveTo, HasPathDefaultSpace, TopoDefaultReset, ToposortDefaultSpace, Dfs, Bfs, DfsPostOrder, DepthFirstSearch, Topo, Toposort, ToposortSpace, KosarajuScc, TarjanScc, TarjanSccReused, IsCyclicDirected, HasPath, HasPathSpace, Dominators, Dijkstra, DijkstraGoal, Astar, KShortest, BellmanFord, NegativeCycle, Spfa, Mst, GreedyMatching, MaximumMatching, FordFulkerson, PageRank, FeedbackArcSet, SimplePaths],
+    matrix: [DfsDefaultReset, DfsPostOrderDefaultReset, DfsMoveTo, HasPathDefaultSpace, TopoDefaultReset, ToposortDefaultSpace, Dfs, Bfs, DfsPostOrder, DepthFirstSearch, Topo, Toposort, ToposortSpace, KosarajuScc, TarjanScc, TarjanSccReused, IsCyclicDirected, HasPath, HasPathSpace, Dominators, Dijkstra, DijkstraGoal, Astar, KShortest, BellmanFord, NegativeCycle, Spfa, Mst, GreedyMatching, MaximumMatching, PageRank, FeedbackArcSet, SimplePaths],
+    gmap: [DfsDefaultReset, DfsPostOrderDefaultReset, DfsMoveTo, HasPathDefaultSpace, TopoDefaultReset, ToposortDefaultSpace, Dfs, Bfs, DfsPostOrder, DepthFirstSearch, Topo, Toposort, ToposortSpace, KosarajuScc, TarjanScc, TarjanSccReused, IsCyclicDirected, HasPath, HasPathSpace, ConnectedComponents, Dominators, Dijkstra, DijkstraGoal, Astar, KShortest, BellmanFord, NegativeCycle, Spfa, FloydWarshall, Mst, GreedyMatching, MaximumMatching, PageRank, SimplePaths],
+    csr: [DfsDefaultReset, DfsPostOrderDefaultReset, DfsMoveTo, HasPathDefaultSpace, Dfs, Bfs, DfsPostOrder, DepthFirstSearch, TarjanScc, TarjanSccReused, IsCyclicDirected, HasPath, HasPathSpace, ConnectedComponents, Dominators, Dijkstra, DijkstraGoal, Astar, KShortest, BellmanFord, NegativeCycle, Spfa, FloydWarshall, Mst, GreedyMatching, MaximumMatching, PageRank],
+    list: [DfsDefaultReset, DfsPostOrderDefaultReset, DfsMoveTo, HasPathDefaultSpace, Dfs, Bfs, DfsPostOrder, DepthFirstSearch, TarjanScc, TarjanSccReused, IsCyclicDirected, HasPath, HasPathSpace, ConnectedComponents, Dominators, Dijkstra, DijkstraGoal, Astar, KShortest, BellmanFord, NegativeCycle, Spfa, FloydWarshall, Mst, GreedyMatching, MaximumMatching, PageRank]);
 impl_replica_set!(Undirected,
-    graph: [Dfs, Bfs, DfsPostOrder, DepthFirstSearch, IsCyclicUndirected, HasPath, HasPathSpace, ConnectedComponents, Bipartite, Dijkstra, DijkstraGoal, Astar, KShortest, BellmanFord, NegativeCycle, Spfa, FloydWarshall, Mst, MstPrim, GreedyMatching, MaximumMatching, ArticulationPoints, Dsatur, MaximalCliques, Graph6],
-    stable: [Dfs, Bfs, DfsPostOrder, DepthFirstSearch, IsCyclicUndirected, HasPath, HasPathSpace, Bipartite, Dijkstra, DijkstraGoal, Astar, KShortest, BellmanFord, NegativeCycle, Spfa, Mst, MstPrim, GreedyMatching, MaximumMatching, ArticulationPoints, Dsatur, MaximalCliques, Graph6],
-    matrix: [Dfs, Bfs, DfsPostOrder, DepthFirstSearch, IsCyclicUndirected, HasPath, HasPathSpace, Bipartite, Dijkstra, DijkstraGoal, Astar, KShortest, BellmanFord, NegativeCycle, Spfa, Mst, MstPrim, GreedyMatching, MaximumMatching, ArticulationPoints, Dsatur, MaximalCliques, Graph6],
-    gmap: [Dfs, Bfs, DfsPostOrder, DepthFirstSearch, IsCyclicUndirected, HasPath, HasPathSpace, ConnectedComponents, Bipartite, Dijkstra, DijkstraGoal, Astar, KShortest, BellmanFord, NegativeCycle, Spfa, FloydWarshall, Mst, MstPrim, GreedyMatching, MaximumMatching, ArticulationPoints, Dsatur, MaximalCliques, Graph6],
-    csr: [Dfs, Bfs, DfsPostOrder, DepthFirstSearch, IsCyclicUndirected, HasPath, HasPathSpace, ConnectedComponents, Bipartite, Dijkstra, DijkstraGoal, Astar, KShortest, BellmanFord, NegativeCycle, Spfa, FloydWarshall, Mst, MstPrim, GreedyMatching, MaximumMatching, ArticulationPoints, Dsatur, MaximalCliques, Graph6],
+    graph: [DfsDefaultReset, DfsPostOrderDefaultReset, DfsMoveTo, HasPathDefaultSpace, Dfs, Bfs, DfsPostOrder, DepthFirstSearch, IsCyclicUndirected, HasPath, HasPathSpace, ConnectedComponents, Bipartite, Dijkstra, DijkstraGoal, Astar, KShortest, BellmanFord, NegativeCycle, Spfa, FloydWarshall, Mst, MstPrim, GreedyMatching, MaximumMatching, ArticulationPoints, Dsatur, MaximalCliques, Graph6],
+    stable: [DfsDefaultReset, DfsPostOrderDefaultReset, DfsMoveTo, HasPathDefaultSpace, Dfs, Bfs, DfsPostOrder, DepthFirstSearch, IsCyclicUndirected, HasPath, HasPathSpace, Bipartite, Dijkstra, DijkstraGoal, Astar, KShortest, BellmanFord, NegativeCycle, Spfa, Mst, MstPrim, GreedyMatching, MaximumMatching, ArticulationPoints, Dsatur, MaximalCliques, Graph6],
+    matrix: [DfsDefaultReset, DfsPostOrderDefaultReset, DfsMoveTo, HasPathDefaultSpace, Dfs, Bfs, DfsPostOrder, DepthFirstSearch, IsCyclicUndirected, HasPath, HasPathSpace, Bipartite, Dijkstra, DijkstraGoal, Astar, KShortest, BellmanFord, NegativeCycle, Spfa, Mst, MstPrim, GreedyMatching, MaximumMatching, ArticulationPoints, Dsatur, MaximalCliques, Graph6],
+    gmap: [DfsDefaultReset, DfsPostOrderDefaultReset, DfsMoveTo, HasPathDefaultSpace, Dfs, Bfs, DfsPostOrder, DepthFirstSearch, IsCyclicUndirected, HasPath, HasPathSpace, ConnectedComponents, Bipartite, Dijkstra, DijkstraGoal, Astar, KShortest, BellmanFord, NegativeCycle, Spfa, FloydWarshall, Mst, MstPrim, GreedyMatching, MaximumMatching, ArticulationPoints, Dsatur, MaximalCliques, Graph6],
+    csr: [DfsDefaultReset, DfsPostOrderDefaultReset, DfsMoveTo, HasPathDefaultSpace, Dfs, Bfs, DfsPostOrder, DepthFirstSearch, IsCyclicUndirected, HasPath, HasPathSpace, ConnectedComponents, Bipartite, Dijkstra, DijkstraGoal, Astar, KShortest, BellmanFord, NegativeCycle, Spfa, FloydWarshall, Mst, MstPrim, GreedyMatching, MaximumMatching, ArticulationPoints, Dsatur, MaximalCliques, Graph6],
     list: [Dfs]);
